@@ -2,12 +2,14 @@
 """Copy a verified sub-agent mutation into /verif/seeded/<id>/ with meta.json."""
 import json, os, shutil, sys
 res = {}
-for l in open("/tmp/wt/verify_results.jsonl"):
+import sys
+WAVE = sys.argv[1] if len(sys.argv) > 1 else ""
+for l in open("/tmp/wt/verify_results%s.jsonl" % ("_" + WAVE if WAVE else "")):
     r = json.loads(l); res[(r["id"], r["m"])] = r
 for (pid, m), r in sorted(res.items()):
     ok = r["apply"] == "ok" and r["baseline"] == "ok" and r["demo_mut"] == "fails_as_expected" and r["demo_orig"] == "passes_as_expected"
     src = f"/tmp/wt/{pid}/out/{m}"
-    dst = f"/verif/seeded/{pid}-{m}"
+    dst = f"/verif/seeded/{pid}-{WAVE + '-' if WAVE else ''}{m}"
     if not ok:
         print("SKIP (not confirmed):", pid, m, r); continue
     os.makedirs(dst, exist_ok=True)
@@ -19,7 +21,7 @@ for (pid, m), r in sorted(res.items()):
         d = "import os\n" + d
     open(os.path.join(dst, "demo.py"), "w").write(d)
     notes = open(os.path.join(src, "notes.md")).read()
-    meta = {"property": pid, "id": f"{pid}-{m}", "origin": "independent sub-agent given only the property text and a scratch worktree",
+    meta = {"property": pid, "id": os.path.basename(dst), "origin": "independent sub-agent given only the property text and a scratch worktree",
             "needs_to_manifest": notes.strip()[:1500],
             "confirmed": {"patch_applies_to_repo_HEAD": True, "pinned_baseline_1092_pass_with_patch": True,
                           "demo_fails_with_patch": True, "demo_passes_without_patch": True,
